@@ -193,6 +193,48 @@ Definition viterbi_check
             | Fail _ => 13
             end
           end.
+
+(** * [reduce_equation] / [post_einsum] called directly on strided torch tensors *)
+(** a view on the wire: (variable, size, torch stride) per dimension, storage offset, flat storage *)
+Definition wview : Type := (list (positive * nat * nat) * nat * list W)%type.
+
+Definition view_of_wire (w : wview) : view (R:=R) :=
+  let '(dims, off, flat) := w in
+  mkView (fun coords => nth (off + dot coords (map snd dims)) (map ofw flat) (Semiring.zero o)) dims false.
+
+Definition wview_ok (w : wview) : bool :=
+  let '(dims, off, flat) := w in
+  nodup_pos (map (fun d => fst (fst d)) dims)
+  && (existsb (fun d => Nat.eqb (snd (fst d)) 0) dims
+      || (off + dot (map (fun d => snd (fst d) - 1) dims) (map snd dims) <? length flat)).
+
+(** (views, output variables, what reduce_equation returned: unsqueeze_index and the shapes of the
+    reduced views, the dense result of einsum(reduced) followed by post_einsum).
+    0 = the result is the einsum of the ORIGINAL equation over the views (specification) and the
+    reduction is the model's; 1..3 = the specification rejects the result; 11, 15, 16 = differs from
+    the model; 20 = malformed *)
+Definition reduce_check (x : list wview * list pn * (list nat * list (list nat)) * wres) : nat :=
+  let '(wvs, out, (i_unsq, i_shapes), res) := x in
+  let views := map view_of_wire wvs in
+  let allv := flat_map (vw_vars (R:=R)) views in
+  if negb (forallb wview_ok wvs && nodup_pos (map fst out) && sizes_consistent (allv ++ out)
+           && forallb (fun kn => pmem (fst kn) allv) out) then 20
+  else
+    let '(tag, i_shp, i_vals) := res in
+    let shp := map snd out in
+    let cells := all_assts shp in
+    match tag with
+    | 0 =>
+        if negb (leqb shp i_shp) then 1
+        else if first_bad okw (map (einsum_views o views out) cells) i_vals then 2
+        else
+          let rd := reduce_equation_model views out in
+          if negb (leqb (rd_unsq rd) i_unsq) then 15
+          else if first_bad leqb (map (fun v => map snd (vw_vars v)) (rd_views rd)) i_shapes then 16
+          else if first_bad okw (map (post_einsum_model (einsum_views o (rd_views rd) (rd_out rd)) (rd_unsq rd)) cells) i_vals then 11
+          else 0
+    | _ => 3
+    end.
 End Check.
 
 (** * instances *)
@@ -207,9 +249,11 @@ Definition ereal_ok (x : ereal) (w : option (Q * Q)) : bool :=
   | _, _ => false
   end.
 Definition einsum_check_real := einsum_check (W:=option Q) ereal_ops eeqb ereal_of ereal_ok.
+Definition reduce_check_real := reduce_check (W:=option Q) ereal_ops ereal_of ereal_ok.
 
 Definition trop_ok (x : trop) (w : nat * Q) : bool := teqb x (trop_of w).
 Definition einsum_check_trop := einsum_check (W:=nat * Q) trop_ops teqb trop_of trop_ok.
+Definition reduce_check_trop := reduce_check (W:=nat * Q) trop_ops trop_of trop_ok.
 Definition viterbi_check_trop := viterbi_check (W:=nat * Q) trop_ops teqb trop_of trop_ok tleb.
 
 Definition einsum_check_bool := einsum_check (W:=bool) bool_ops Bool.eqb (fun b => b) Bool.eqb.
